@@ -206,6 +206,13 @@ func marshalValue(buf *bytes.Buffer, value any) error {
 	return nil
 }
 
+// isSameFile reports whether both paths name the same existing file (also through links).
+func isSameFile(a, b string) bool {
+	infoA, errA := os.Stat(a)
+	infoB, errB := os.Stat(b)
+	return errA == nil && errB == nil && os.SameFile(infoA, infoB)
+}
+
 func FileExists(filename string) bool {
 	info, err := os.Stat(filename)
 	if os.IsNotExist(err) {
